@@ -280,6 +280,10 @@ def check(chk, fx):
     from . import c19
     c19.hlp_t(chk, ("clang++",))
 
+    # the caller's stream is shared between calls: nothing may leave formatting state behind in it
+    from . import c16
+    c16.manip_scan(chk, fx, "IMM-11")
+
     # ---------------------------------------------------------------- IMM-10 grammar objects own their members
     owners = ("ctpg::detail::rule", "ctpg::term", "ctpg::char_term", "ctpg::string_term", "ctpg::regex_term",
               "ctpg::custom_term", "ctpg::typed_term", "ctpg::nterm")
